@@ -186,10 +186,12 @@ class Cfg:
         self.allow_nd = True
         self.roots = ("struct", "struct", "struct", "array", "array", "array", "unionref", "unionref", "string")
         self.scalars = SCALARS
-        # "big" cases (one in big_weight when big_weight > 0): few leaves, but extents up to 20 (static) / 40 (dynamic),
-        # texts up to 300 characters, up to 3000 elements per root object: item tables, size words and strings that
-        # cross 256 / 4096 / 65536 bytes.  Values of big arrays are drawn as a small pool repeated with a stride.
+        # "big" cases (one in big_weight when big_weight > 0): few leaves, but extents up to 12 (static) / 24 (dynamic),
+        # texts up to 300 characters, up to 600 elements per root object: item tables, size words and strings that
+        # cross 256 / 4096 bytes; with allow_huge one big case in eight holds an array of 8200 / 12345 8-byte numbers
+        # (objects beyond 64 KiB, not a multiple of 64 KiB).  Values of big arrays are drawn as a small pool repeated with a stride.
         self.big_weight = 0
+        self.allow_huge = False
         self.is_big = False
         self.max_text = 12
         self.__dict__.update(kw)
@@ -197,7 +199,7 @@ class Cfg:
     def big(self):
         c = Cfg.__new__(Cfg)
         c.__dict__.update(self.__dict__)
-        c.max_static_dim, c.max_dyn_extent, c.max_elems = 20, 40, 3000
+        c.max_static_dim, c.max_dyn_extent, c.max_elems = 12, 24, 600
         c.max_leaves = min(self.max_leaves, 5)
         c.max_text, c.is_big, c.big_weight = 300, True, 0
         return c
@@ -267,9 +269,9 @@ def _draw_type(draw, cfg, namer, budget, depth, kind, elems):
             fields.append([f"f{i}", ft])
         return {"k": "struct", "name": name, "fields": fields}
     if kind == "array":
-        if cfg.is_big and elems == 1 and cfg.allow_dynamic and draw(st.integers(0, 5)) == 0:
-            # a "huge" array: one dynamic axis of 8191 .. 20000 numbers (objects of 64 KiB .. 160 KiB, not a multiple of 64 KiB)
-            return {"k": "array", "name": None, "item": {"k": "scalar", "t": draw(st.sampled_from(cfg.scalars))}, "shape": [None], "order": [0], "huge": 1}
+        if cfg.is_big and cfg.allow_huge and elems == 1 and cfg.allow_dynamic and draw(st.integers(0, 7)) == 0:
+            # a "huge" array: one dynamic axis of 8200 / 12345 8-byte numbers (objects of 64 KiB .. 100 KiB, not a multiple of 64 KiB)
+            return {"k": "array", "name": None, "item": {"k": "scalar", "t": draw(st.sampled_from(["Float64", "Int64", "UInt64"]))}, "shape": [None], "order": [0], "huge": 1}
         nd = draw(st.sampled_from([1, 1, 2, 2, 3])) if cfg.allow_nd else 1
         shape = []
         room = max(1, cfg.max_elems // max(1, elems))
@@ -351,7 +353,7 @@ def scalar_values(t):
 def dyn_extents(cfg):
     """runtime extents of dynamic dimensions: 0 included but not dominant"""
     if cfg.is_big:
-        return st.one_of(st.sampled_from([0, 1, 9, 17, 33]), st.integers(0, cfg.max_dyn_extent))
+        return st.one_of(st.sampled_from([0, 1, 9, 17]), st.integers(0, cfg.max_dyn_extent))
     return st.one_of(st.sampled_from([0, 1, 1, 2, 2, 3]), st.integers(0, cfg.max_dyn_extent))
 
 
@@ -370,7 +372,7 @@ def texts(cfg):
     return _text
 
 
-HUGE_EXTENTS = [8191, 8200, 12345, 16385, 20000]
+HUGE_EXTENTS = [8200, 12345]
 
 
 def array_shape(draw, spec, cfg):
